@@ -113,10 +113,38 @@ OBLIGATIONS += [
     K("C06", "c06_compact_len_33", "c06", ["Signature::from_compact_bytes"], "all 33-byte buffers", cost=1),
     K("C06", "c06_compact_len_64", "c06", ["Signature::from_compact_bytes"], "all 64-byte buffers", cost=1),
     K("C06", "c06_compact_len_66", "c06", ["Signature::from_compact_bytes"], "all 66-byte buffers", cost=1),
+    M("C06", "c06_compact_glue", {"q": "compact"}, ["Signature::from_compact_impl", "Signature::to_compact_bytes (+closure)", "RecoveryInfo::from_byte", "RecoveryInfo::default (derived)"],
+      "all 256 header bytes x symbolic r,s (curve-order range check = uninterpreted predicate VALID_RS) x all 8 RecoveryInfo values; buffer lengths 0,1,32,33,64,66 refused", cost=1,
+      stubs=("E2: k256 Signature::from_scalars/r/s/Scalar::to_bytes are opaque constructors/accessors with an uninterpreted validity predicate",)),
+    M("C06", "c06_der_and_flag", {"q": "der"}, ["Signature::from_der_impl", "SighashSignature::from_bytes_impl", "<SigHash as TryFrom<u8>>::try_from"],
+      "from_der on prefix++[last byte] with prefix of symbolic length <= 80 and every last byte; from_bytes_impl(DER ++ flag) for all 14 SigHash values and DER lengths 8..80 (both sides of the 72-byte branch); "
+      "DER validity is an uninterpreted predicate (k256's DER parser is not executed)", cost=1,
+      stubs=("E2: ecdsa::Signature::from_der is an opaque parser: Ok(sig(bytes)) iff DER_VALID(bytes) (uninterpreted)",)),
     K("C06", "c06_compact_parse_any", "c06", ["Signature::from_compact_bytes", "Signature::to_compact_bytes", "Signature::r", "Signature::s", "k256 Signature::from_scalars (real code)"],
       "all 65-byte strings; unwind 67", cost=30, tiers=("thorough",), timeout=3000, full_domain=True),
     K("C06", "c06_compact_recovery_matrix", "c06", ["Signature::from_compact_bytes", "Signature::to_compact_bytes(Some(RecoveryInfo))", "RecoveryInfo::new/from_byte"],
       "all 65-byte strings with header 27..=34 x all 8 RecoveryInfo values; unwind 67", cost=40, tiers=("thorough",), timeout=3600, full_domain=True),
+]
+
+# ---------------------------------------------------------------- C07
+EXPLANATION["C07"] = ("Partial: address algebra only. E2 executes from_pubkey_hash_impl, set_chain_params_impl, from_pubkey_impl and to_unlocking_script_impl with SHA256D/HASH160 uninterpreted: "
+                      "prefix / hash / checksum = SHA256D(prefix||hash)[0..4] for every prefix and hash; an address accepts exactly its own key (HASH160(key) == hash) for every prefix. "
+                      "Base58/WIF strings, SEC1 validation and (de)compression are outside (string machinery, EC arithmetic).")
+OBLIGATIONS += [
+    M("C07", "c07_address_algebra", {"q": "address"}, ["P2PKHAddress::from_pubkey_hash_impl", "P2PKHAddress::set_chain_params_impl", "P2PKHAddress::from_pubkey_impl", "P2PKHAddress::to_unlocking_script_impl", "PublicKey::to_bytes_impl"],
+      "all 20-byte hashes, all prefix bytes, all 33-byte keys (opaque); hashes uninterpreted; asm/hex rendering opaque", cost=1),
+]
+
+# ---------------------------------------------------------------- C12
+EXPLANATION["C12"] = ("Partial: framing and comparison logic. E2: BSM::prepend_magic_bytes == varint(24)||magic||varint(len)||msg for every message length (crossing 253 and 65536 in one query); "
+                      "sign_impl/sign_with_k_impl hand exactly that string to the signer with Sha256d; verify_message_impl accepts iff the recovered key's HASH160 equals the address hash and the "
+                      "signature verifies, for EVERY network prefix (recovery/verification are uninterpreted predicates); compact 65-byte round trip via the C06 glue query. "
+                      "That real signatures verify / wrong ones fail is EC arithmetic (outside).")
+OBLIGATIONS += [
+    M("C12", "c12_bsm_magic", {"q": "bsm_magic"}, ["BSM::prepend_magic_bytes", "BSM::sign_impl", "BSM::sign_with_k_impl", "VarIntWriter::write_varint"], "message of symbolic length <= 2^33; signer opaque", cost=1),
+    M("C12", "c12_bsm_verify", {"q": "bsm_verify"}, ["BSM::verify_message_impl", "P2PKHAddress::from_pubkey_impl", "P2PKHAddress::from_pubkey_hash_impl", "P2PKHAddress::to_string_impl", "P2PKHAddress::to_pubkey_hash"],
+      "all prefixes, hashes, checksums; message <= 252 bytes; key recovery and ECDSA verification are uninterpreted predicates; Base58 is an injective constructor", cost=1),
+    M("C12", "c12_compact_glue", {"q": "compact", "name": "compact_glue_c12"}, ["Signature::from_compact_impl", "Signature::to_compact_bytes", "RecoveryInfo::from_byte"], "as C06 c06_compact_glue", cost=1),
 ]
 
 
